@@ -69,6 +69,12 @@ func (w *World) log(format string, a ...any) {
 	}
 }
 
+// Tok returns a fresh unique token.
+func (w *World) Tok(prefix string) string {
+	w.nTok++
+	return fmt.Sprintf("%s%d", prefix, w.nTok)
+}
+
 // Witness returns the recent step log.
 func (w *World) Witness() map[string]any {
 	return map[string]any{"steps": append([]string(nil), w.Steps...), "managed": w.Managed, "tables": tableSummary(w.DB)}
